@@ -124,13 +124,29 @@ def run_case(edges, res, margin, obs, radius, noise):
                         round(o.position.getZ() * 1000), round((o.timestamp.toAbsTime() - t0) * 1000)])
         return out
     e["pre"] = snap()
+    # mapOnNetwork accepts a track or a COLLECTION of tracks (each matched in turn): every third call hands the judged track
+    # over as the second track of a collection, after a decoy with as many observations somewhere else on the network
+    coll = (len(obs) + int(sum(p[0] + 2 * p[1] for p in obs)) + len(edges)) % 3 == 0
+    e["cfg"]["entry"] = "collection" if coll else "track"
     try:
         with core.quiet():
-            mapOnNetwork(tr, net, gps_noise=noise, search_radius=radius, verbose=False)
+            if coll:
+                from tracklib.core.track_collection import TrackCollection
+                ex, ey = edges[-1][0][0], edges[-1][0][1]
+                mk_decoy = lambda: Track([Obs(ENUCoords(float(ex + k % 2), float(ey), 0.0), ObsTime.readUnixTime(t0 + 10 * k)) for k in range(len(obs))])
+                try:            # the decoy itself must be matchable (it may sit next to a vertical leg: known finding)
+                    mapOnNetwork(mk_decoy(), net, gps_noise=noise, search_radius=radius, verbose=False)
+                except (Exception, SystemExit):
+                    coll = False
+                    e["cfg"]["entry"] = "track"
+            if coll:
+                mapOnNetwork(TrackCollection([mk_decoy(), tr]), net, gps_noise=noise, search_radius=radius, verbose=False)
+            else:
+                mapOnNetwork(tr, net, gps_noise=noise, search_radius=radius, verbose=False)
             inf = [tr["hmm_inference", k] for k in range(tr.size())]
         e["states"] = [abstract_state(s, edges) for s in inf]
         # the candidate lists the decoder chose from (module global of tracklib.algo.mapping)
-        e["cands"] = [[abstract_state(c, edges) for c in cl] for cl in mp_.STATES]
+        e["cands"] = [[abstract_state(c, edges) for c in cl] for cl in mp_.STATES[-tr.size():]]
     except ZeroDivisionError as ex:
         e["raised"] = True
         e["zerodiv"] = True
